@@ -68,3 +68,19 @@ Proof.
   - intros s k Hs' Hk. unfold fwd_model. rewrite (sieve_model_spec l1 maxKB K1 K2 s MAX64 (N.le_refl _)). reflexivity.
   - intros s k Hs' Hk. unfold bwd_model. rewrite (sieve_model_spec l1 maxKB K1 K2 0 s Hs'). reflexivity.
 Qed.
+
+(** generate_primes / generate_n_primes: the blocks an iterator delivers, taken from the model kernel *)
+From PS Require Import Model.Store Proofs.StoreP.
+Lemma blocks_of_model l1 maxKB cut start : 16 <= maxKB -> maxKB <= 8192 -> cut_spec cut ->
+  blocks_of start (cut (sieve_model l1 maxKB start MAX64)).
+Proof.
+  intros K1 K2 HC. destruct (HC (sieve_model l1 maxKB start MAX64)) as [Hcat Hne].
+  split; [rewrite Hcat; apply sieve_model_spec; [exact K1|exact K2|apply N.le_refl]|exact Hne].
+Qed.
+
+Theorem store_primes_model l1 maxKB cut maxV start stop v0 : 16 <= maxKB -> maxKB <= 8192 -> cut_spec cut ->
+  largest_prime_hyp -> start <= MAX64 -> stop <= MAX64 ->
+  store_primes maxV start stop (cut (sieve_model l1 maxKB start MAX64)) v0 =
+    if (start <=? stop) && (start <=? MAXPRIME64) && (maxV <? stop) then SThrow v0
+    else SOk (v0 ++ primes_between start stop).
+Proof. intros K1 K2 HC HL. apply store_primes_spec; [exact HL|apply blocks_of_model; assumption]. Qed.
